@@ -101,7 +101,7 @@ From SioV Require Import Eio.HeartbeatLink.
 Definition xev_of (k : N) : xev :=
   match k with
   | 0%N => XS SWake | 2%N => XS STake | 3%N => XS STimeout
-  | 10%N => XDeliverPing | 11%N => XDeliverPong | 12%N => XC CRearm | 13%N => XC CTimeout
+  | 10%N => XDeliver | 11%N => XDeliverPong | 14%N => XSwap | 15%N => XSend DNoop | 16%N => XSend DMsg | 12%N => XC CRearm | 13%N => XC CTimeout
   | 7%N => XS SApp | _ => XC CApp
   end.
 
@@ -113,7 +113,7 @@ Definition xcase := (Z * Z * Z * Z * Z * Z * list (Z * N) * Z)%type.
 Definition agree_x (x : xcase) : bool :=
   let '(pI, pT, pD, ld, lu, start, evs, t_end) := x in
   (ld + lu + 2 * pD <? pT) &&
-  match xvalid (mkCfg pI pT pD true) (mkLink ld lu) start
+  match xvalid (mkCfg pI pT pD true) (mkLink ld lu keep_code) start
                (map (fun te => (fst te, xev_of (snd te))) evs) t_end with
   | Some st => match s_reason (xs st), c_reason (xc st) with None, None => true | _, _ => false end
   | None => false
